@@ -121,6 +121,43 @@ pub assume_specification [core::cmp::Ordering::is_lt] (o: core::cmp::Ordering) -
 pub assume_specification [core::cmp::Ordering::is_le] (o: core::cmp::Ordering) -> (r: bool) ensures r == (o != core::cmp::Ordering::Greater);
 pub assume_specification [core::cmp::Ordering::is_gt] (o: core::cmp::Ordering) -> (r: bool) ensures r == (o == core::cmp::Ordering::Greater);
 pub assume_specification [core::cmp::Ordering::is_ge] (o: core::cmp::Ordering) -> (r: bool) ensures r == (o != core::cmp::Ordering::Less);
+pub uninterp spec fn fconst_EPSILON() -> f64;
+#[verifier::external_body]
+pub fn __f64_EPSILON() -> (r: f64) ensures r == fconst_EPSILON() { f64::EPSILON }
+pub uninterp spec fn fconst_MAX() -> f64;
+#[verifier::external_body]
+pub fn __f64_MAX() -> (r: f64) ensures r == fconst_MAX() { f64::MAX }
+pub uninterp spec fn fconst_MIN() -> f64;
+#[verifier::external_body]
+pub fn __f64_MIN() -> (r: f64) ensures r == fconst_MIN() { f64::MIN }
+pub uninterp spec fn fconst_MIN_POSITIVE() -> f64;
+#[verifier::external_body]
+pub fn __f64_MIN_POSITIVE() -> (r: f64) ensures r == fconst_MIN_POSITIVE() { f64::MIN_POSITIVE }
+pub uninterp spec fn fconst_NAN() -> f64;
+#[verifier::external_body]
+pub fn __f64_NAN() -> (r: f64) ensures r == fconst_NAN() { f64::NAN }
+
+// R12: integer-to-float casts (`X as f64`), which this Verus rejects; the wrapper IS the cast.
+pub uninterp spec fn u64_to_f64(n: u64) -> f64;
+pub uninterp spec fn usize_to_f64(n: usize) -> f64;
+pub trait ToF64: Sized {
+    spec fn to_f64_spec(self) -> f64;
+    fn __to_f64(self) -> (r: f64) ensures r == self.to_f64_spec();
+}
+impl ToF64 for u64 {
+    open spec fn to_f64_spec(self) -> f64 { u64_to_f64(self) }
+    #[verifier::external_body]
+    fn __to_f64(self) -> (r: f64) { self as f64 }
+}
+impl ToF64 for usize {
+    open spec fn to_f64_spec(self) -> f64 { usize_to_f64(self) }
+    #[verifier::external_body]
+    fn __to_f64(self) -> (r: f64) { self as f64 }
+}
+pub fn __as_f64<T: ToF64>(x: T) -> (r: f64) ensures r == x.to_f64_spec() { x.__to_f64() }
+
+// R13: identity on f64 (see rule R13 of the extractor)
+pub fn __idf(x: f64) -> (r: f64) ensures r == x { x }
 
 // ---- prelude fragment: slice_state_ext.rs ----
 // R6 state abstraction for the external-sampling loops: one iteration = pass for player one, then
